@@ -48,6 +48,11 @@ func TestDescribe(t *testing.T) {
 				t.Logf("  %d: Shutdown", i)
 			}
 		}
+	case "sharedcomponent-gated":
+		var s GatedScript
+		_, _ = vt.LoadReplay(p, &s)
+		t.Logf("gated: hosts=%d likeGraph=%v Start reports [%s]; prefix [%s]; racers %s; first report of racer %d is held inside host %d's delivery; post [%s]",
+			s.NHosts, s.Auto, lettersString(s.StartReports), lettersString(s.Prefix), workersString(s.Racers), s.HeldRacer, s.HeldHost, lettersString(s.Post))
 	case "service-watcher":
 		var s SvcScript
 		_, _ = vt.LoadReplay(p, &s)
